@@ -184,7 +184,9 @@ func parseHostPattern(str, full string) (HostPattern, string, error) {
 		// At least two bytes (e.g. "a.") are required for the part
 		// corresponding to the wildcard character sequence in a valid origin,
 		// hence the subtraction in the following expression.
-		if len(host.Value) > maxHostLen-2 {
+		// The full stop that ends an absolute domain name doesn't count
+		// towards the length of that domain name (see maxHostLen).
+		if len(strings.TrimSuffix(host.Value, string(labelSep))) > maxHostLen-2 {
 			err := &cfgerrors.UnacceptableOriginPatternError{
 				Value:  full,
 				Reason: "invalid",
